@@ -64,6 +64,17 @@ func program(r *mc.Run, interleaved bool, calls int, overSCION bool) func(x *mc.
 				return pr.UDP.Payload
 			}
 			sentCookies := map[string]int{}
+			// issued: a time not after the moment each cookie in the client's pool was
+			// issued (start of the call in which it first appeared); a cookie is sealed
+			// under a key generated at most 24 h earlier that stays valid for 72 h
+			issued := map[string]time.Time{}
+			noteIssued := func(callStart time.Time) {
+				for _, ck := range f.VerifData().Cookie {
+					if _, ok := issued[string(ck)]; !ok {
+						issued[string(ck)] = callStart
+					}
+				}
+			}
 			seenReq := 0
 			lastLoss := 0
 			lossFree := true
@@ -78,6 +89,7 @@ func program(r *mc.Run, interleaved bool, calls int, overSCION bool) func(x *mc.
 				}
 				ctx, cancel := context.WithTimeout(context.Background(), time.Second)
 				deadline := time.Now().Add(time.Second)
+				callStart := time.Now()
 				var err error
 				th := w.Go("client", func() {
 					if overSCION {
@@ -149,6 +161,10 @@ func program(r *mc.Run, interleaved bool, calls int, overSCION bool) func(x *mc.
 						x.Failf("request-placeholder-count", "pool level %d: %d placeholder fields, want %d", level, len(np.CookiePlaceholders), wantPH)
 					}
 					ck := string(np.Cookies[0].Cookie)
+					noteIssued(callStart)
+					if _, ok := issued[ck]; !ok {
+						issued[ck] = callStart
+					}
 					if n, dup := sentCookies[ck]; dup {
 						x.Failf("cookie-sent-twice", "the cookie of exchange %d was already sent in exchange %d", exch, n)
 					}
@@ -177,6 +193,9 @@ func program(r *mc.Run, interleaved bool, calls int, overSCION bool) func(x *mc.
 						}
 					}
 					x.Logf("exchange %d: pool level %d, %d placeholders, net=%d, replies=%d", exch, level, len(np.CookiePlaceholders), loss, len(replies))
+					if age := time.Since(issued[ck]); loss != 1 && len(replies) != 1 && age < 48*time.Hour-time.Minute {
+						x.Failf("request-with-valid-cookie-not-answered", "exchange %d: the request carried a cookie issued at most %v ago (usable for two days) and reached the server: %d replies", exch, age, len(replies))
+					}
 					// ---- the reply
 					for _, rp := range replies {
 						rpPayload := ntsPayload(rp)
@@ -244,6 +263,7 @@ func program(r *mc.Run, interleaved bool, calls int, overSCION bool) func(x *mc.
 					}
 				}
 				cancel()
+				noteIssued(callStart)
 				x.Observe(err == nil, len(f.VerifData().Cookie), nw.KEConns)
 				x.Logf("call %d: err=%v pool=%d key exchanges=%d", call, err, len(f.VerifData().Cookie), nw.KEConns)
 			}
@@ -316,6 +336,6 @@ func TestCheck(t *testing.T) {
 			r.Explore(mc.Config{Name: fmt.Sprintf("scion/interleaved=%v", il), Bound: mc.Pick(r, 2, 3)}, program(r, il, mc.Pick(r, 10, 12), true))
 		}
 		r.Explore(mc.Config{Name: "server-side", Bound: -1, ShardN: 1}, serverSide(r))
-		r.Extra["rule"] = "histories of 12 (14) MeasureClockOffsetIP calls of the real NTS-enabled IPClient (and, with 10 (12) calls within 2 (3) deviations, of the real NTS-enabled SCIONClient against runSCIONServer) against the real listener and key-exchange handler; per exchange {deliver, lose request, lose response} (a run of equal losses is one deviation), between calls a time step in {1s, 23h, 25h, 49h, 73h}; all histories within 3 (4) deviations; every request and reply on the wire is decoded and judged"
+		r.Extra["rule"] = "histories of 12 (14) MeasureClockOffsetIP calls of the real NTS-enabled IPClient (and, with 10 (12) calls within 2 (3) deviations, of the real NTS-enabled SCIONClient against runSCIONServer) against the real listener and key-exchange handler; per exchange {deliver, lose request, lose response} (a run of equal losses is one deviation), between calls a time step in {1s, 23h, 25h, 49h, 73h}; all histories within 3 (4) deviations; every request and reply on the wire is decoded and judged; a delivered request whose cookie was issued less than two days earlier must be answered"
 	})
 }
